@@ -137,6 +137,16 @@ def check_file(ctx, model, nptdms, data, stats, exhaustive, unknown_marker, stri
                 vio.append(Violation("file cut at byte %d: lazy and eager reads of %r differ" % (k, p), dict(kind="cut", file=data.hex(), cut=k, mode="lazy", path=p.hex(), lazy=lv, eager=ev)))
             if len(ch) != nvals(lv):
                 vio.append(Violation("file cut at byte %d (lazy): len(%r)=%d but %d values" % (k, p, len(ch), nvals(lv)), dict(kind="cut", file=data.hex(), cut=k, mode="lazy", path=p.hex())))
+            # the same channel again on the same open file (whatever the first read left behind must not change the second), after
+            # touching its tail through the integer index
+            if rc["data"] is not None and len(ch) > 0 and stats["lazy"] % 2 == 0:
+                last = cl.call(lambda: ch[len(ch) - 1])
+                again = cl.call(lambda: ch.read_data(scaled=False))
+                if again[0] != "ok" or (cl.canon_out(again[1])["data"] or []) != (rc["data"] or []):
+                    vio.append(Violation("file cut at byte %d: a second lazy read of %r on the same open file differs from the first (%s)" % (
+                        k, p, again[2] if again[0] != "ok" else "values differ"), dict(kind="cut", file=data.hex(), cut=k, mode="lazy-again", path=p.hex())))
+                elif last[0] != "ok":
+                    vio.append(Violation("file cut at byte %d: %r[len-1] raised %s" % (k, p, last[2]), dict(kind="cut", file=data.hex(), cut=k, mode="lazy-again", path=p.hex())))
             if model is not None and stats["lazy"] % 3 == 0:
                 mm = model.ask("wins %s %s 0:N" % (hx(cd), hx(p)))
                 if mm.get("ok"):
